@@ -43,6 +43,56 @@ def r18_1(facts, res):
         raise BrokenCheck("R18-1: %d predicates found, floor %d" % (st["instances"], st["floor"]))
 
 
+def r18_3(facts, res, rule="R18-3"):
+    """White space is production [3] S = #x20 | #x9 | #xD | #xA and nothing else: a helper of the library that asks whether a
+    name contains white space (the DOM factories refuse such names) must test exactly these four characters - Unicode white
+    space (`char::is_whitespace`) includes U+1680, which is a NameStartChar and NameChar."""
+    import e3
+    from facts import walk
+    st = res.rule(rule, instances=0)
+    S = e3.CS.of((0x9, 0xA), (0xD, 0xD), (0x20, 0x20))
+    for f in sorted(facts.fns.values(), key=lambda x: x["path"]):
+        if f["crate"] not in ("xml_info", "xml_dom") or "body" not in f or "::tests::" in f["path"]:
+            continue
+        nm = f["path"].split("::")[-1]
+        if not ("white_space" in nm or "whitespace" in nm) or not str(f.get("sig", "")).endswith("-> bool"):
+            continue
+        st["instances"] += 1
+        got = None
+        try:
+            for n in walk(f["body"]):
+                if n.get("k") == "MethodCall" and n.get("m") in ("contains", "any", "find", "starts_with", "ends_with") and n.get("args"):
+                    a = n["args"][0]
+                    while a.get("k") == "AddrOf":
+                        a = a["a"]
+                    if a.get("k") == "Closure":
+                        got = e3.closure_set(facts, a, {})
+                    elif a.get("k") == "Path" and str(a.get("path", "")).split("::")[-1].startswith("is_"):
+                        m = str(a["path"]).split("::")[-1]
+                        got = e3.ASCII_METHODS.get(m) if m in e3.ASCII_METHODS else e3.unicode_method(m)
+                    else:
+                        v = e3.Interp(facts).ev(a, {})
+                        if isinstance(v, tuple) and v[0] == "arr" and all(isinstance(x, int) for x in v[1]):
+                            got = e3.CS.of(*[(x, x) for x in v[1]])
+                        elif isinstance(v, int):
+                            got = e3.CS.of((v, v))
+                        elif isinstance(v, tuple) and v[0] == "str":
+                            got = v[1]
+        except e3.Uninterpretable as u:
+            raise BrokenCheck("%s: %s: %s" % (rule, f["path"], u))
+        if got is None:
+            raise BrokenCheck("%s: %s: the set of characters tested is not recognised" % (rule, f["path"]))
+        ok = got == S
+        res.oblige(1, ok)
+        if not ok:
+            extra, missing = got - S, S - got
+            res.add(Finding(rule, f["path"], "%s treats %s as white space, XML 1.0 [3] S is #x20 #x9 #xD #xA (%d code points too many, first %s; "
+                            "%d missing)" % (f["path"], "other characters", extra.size(), ("U+%04X" % extra.min()) if extra else "-", missing.size()),
+                            f["file"], f["line"], {}))
+    if st["instances"] < 1:
+        raise BrokenCheck("%s: no white-space helper found in xml_info / xml_dom" % rule)
+
+
 def run(facts, tier):
     res = Result("C18")
     res.explanation = (
@@ -56,6 +106,7 @@ def run(facts, tier):
         "semantics of char::is_ascii_* and str::contains(char) as documented in std",
     ]
     r18_1(facts, res)
+    r18_3(facts, res)
     try:
         import e2
         e2.r18_2(facts, res, tier)
